@@ -225,8 +225,12 @@ def _verdicts_of(ctx: Ctx, f: Func, node: ast.AST, resv: str) -> Tuple[Set[str],
         elif t == "res.and_self is False":
             and_self = pol
             continue
-        elif t in ("res.and_self", "res.and_self is True"):
+        elif t == "res.and_self is True":
             and_self = not pol
+            continue
+        elif t == "res.and_self":
+            # truthiness: the default and_self=None is falsy too - not the documented `and_self is False` test
+            unknown.add(("not " if not pol else "") + "res.and_self  [truthiness: the default SkipBranch() has and_self=None, which must drop the node]")
             continue
         elif "res" in [x.id for x in ast.walk(e) if isinstance(x, ast.Name)] or (resv in [x.id for x in ast.walk(e) if isinstance(x, ast.Name)]):
             if pol:
@@ -487,7 +491,7 @@ def _mentions(e: Optional[ast.AST], texts: Set[str]) -> bool:
     return any(norm(x) in texts for x in ast.walk(e))
 
 
-@rule("COPY-ID", ["C07", "C05", "C02", "C08"], floor=3, section="3.5")
+@rule("COPY-ID", ["C07", "C05", "C02", "C08", "C13"], floor=3, section="3.5")
 def copy_id(ctx: Ctx) -> List[Ob]:
     """wherever a node is created from a source node's data, the source's data_id travels with it (an explicit id is not recomputed from hash(data)); typed copies carry the source's kind"""
     obs: List[Ob] = []
@@ -521,7 +525,8 @@ def copy_id(ctx: Ctx) -> List[Ob]:
                 r = env.reaching(f, c, a_id.id)
                 vals = r[0] if r is not None else [b.expr for b in env.scope(f).resolve(a_id.id)[1] if b.kind == "val"]
                 ok = any(_mentions(v, idtexts) for v in vals)
-            obs.append(ctx.ob("COPY-ID", ["C07", "C05", "C02"] + (["C08"] if "_add_filtered" in f.qualname or f.name == "_add_from" else []), f, f"copy of {sk}.data carries {sk}._data_id", c, ok,
+            # (in the batch copies a recomputed id can also collide half-way: a refusal that leaves a partial branch, C13)
+            obs.append(ctx.ob("COPY-ID", ["C07", "C05", "C02"] + (["C08", "C13"] if "_add_filtered" in f.qualname or f.name == "_add_from" else []), f, f"copy of {sk}.data carries {sk}._data_id", c, ok,
                               "" if ok else f"the copy of `{s}` gets data_id={norm(a_id) if a_id is not None else 'None'} -> recomputed by calc_data_id(data): "
                               "a node with an explicit data_id is copied under hash(data) and leaves its clone group"))
             # kind for typed code
